@@ -133,7 +133,7 @@ PROPS = {
     "C07": dict(
         crate="mon_engine", cmd="c07", level="exploration", needs_app=True,
         floors={"quick": {"go_depth": 300, "go_movetime": 150, "go_clock": 150, "go_infinite": 150, "go_with_searchmoves": 100, "go_without_new_position": 200, "roots_already_threefold": 30, "roots_occurred_twice": 10,
-                          "mate_roots": 10, "stalemate_roots": 5, "roots_fullmove_above_2500": 50, "roots_fullmove_at_or_above_32766": 20, "answered_via_app": 50, "answered_via_app-hooked": 20, "searches_interrupted": 100, "sessions": 100}},
+                          "mate_roots": 10, "stalemate_roots": 5, "roots_fullmove_above_2500": 50, "roots_fullmove_at_or_above_32766": 20, "cycles_following_bestmove_and_ponder_move": 100, "cycles_with_a_sibling_move_list": 50, "late_stops_after_the_answer": 100, "answered_via_app": 50, "answered_via_app-hooked": 20, "searches_interrupted": 100, "sessions": 100}},
         rule="sessions of 3-12 ucinewgame/position/go cycles on one engine instance: roots from reference walks of 0-120 moves from seeds (full-move numbers up to 30000), 15% with knight/king shuffle histories so that the root already occurred 2 or >=3 times, 5% mate/stalemate roots; "
              "go limits from {depth 1-4} u {movetime 0,1,2,5,50} u {wtime/btime in {0,1,50,1000,60000} x winc/binc in {absent,0,1,100}} u {infinite + stop after 0/50us/1ms/20ms/150ms}, 25% with searchmoves (random subset of legal moves, sometimes padded with illegal ones), 40% of cycles without a new position command; "
              "driven in-process (Engine<CommandUciTx>) with poll intervals {default,1000,5000,20000} and through the shipped binary (plain and hooked build) over pipes; bounded restatement of 'is answered': the answer arrives before a 120 s watchdog (else inconclusive if the search thread is alive, violation if it died); "
@@ -152,7 +152,7 @@ PROPS = {
     ),
     "C09": dict(
         crate="mon_engine", cmd="c09", level="fault_enumeration", needs_app=True,
-        floors={"quick": {"searches_enumerated": 50, "interruption_points_enumerated": 5000, "interrupted_after_a_completed_iteration": 3000, "probe_searches": 5000, "consecutive_interruption_runs": 50, "quit_during_search": 50, "stop_and_same_position_back_to_back": 50, "movetime_expiry": 30, "stop_after_*": 100, "real_abort_at_node_*": 50}},
+        floors={"quick": {"searches_enumerated": 50, "interruption_points_enumerated": 5000, "interrupted_after_a_completed_iteration": 3000, "probe_searches": 5000, "consecutive_interruption_runs": 50, "quit_during_search": 50, "stop_and_same_position_back_to_back": 50, "late_stop_after_the_answer": 50, "zero_budget_go_after_an_interrupted_search": 40, "movetime_expiry": 30, "stop_after_*": 100, "real_abort_at_node_*": 50}},
         rule="interruption points are enumerated through the test point at the search's only suspension point: with poll interval 1 every negamax node is a poll, and abort_at_node(n) makes the search behave as if its move time expired at the n-th poll; for each chosen (position, depth) n runs over 1..T (thorough: every n; quick: stride so that <= 700 points per search), "
              "then 2-5 consecutive interrupted searches at random n; after every interrupted search: (a) the search thread's board dump equals the dump of the position given, (b) `go depth 1` without position answers a move legal in that position with the depth-1 score of a fresh engine, (c) exactly one bestmove, equal to the first PV move of the last completed iteration; "
              "real schedules without the test point (default 100 000-node poll): go infinite + stop after 0us..400ms, go movetime 1-20, quit during search, in-process and through the shipped binary; distinct_nontrivial = distinct (iteration, ply at abort) pairs observed",
@@ -180,7 +180,7 @@ PROPS = {
     ),
     "C16": dict(
         crate="mon_engine", cmd="c16", level="exploration", needs_app=True,
-        floors={"quick": {"sessions": 60, "app_sessions": 30, "lines_info": 3000, "lines_bestmove": 800, "lines_id": 60, "lines_readyok": 30, "pvs_validated": 5000, "searches_judged": 1500, "cycles_where_opponent_played_the_ponder_move": 300, "root_session_searches": 200, "searches_from_roots_that_occurred_before": 20, "output_stress_sessions": 16, "stress_lines_readyok": 10000, "stress_lines_info": 2000, "go_infinite": 150, "go_clock": 150, "go_movetime": 150, "go_depth": 300}},
+        floors={"quick": {"sessions": 60, "app_sessions": 30, "lines_info": 3000, "lines_bestmove": 800, "lines_id": 60, "lines_readyok": 30, "pvs_validated": 5000, "searches_judged": 1500, "cycles_where_opponent_played_the_ponder_move": 300, "root_session_searches": 200, "searches_on_a_sibling_move_list": 50, "searches_from_roots_that_occurred_before": 20, "output_stress_sessions": 16, "stress_lines_readyok": 10000, "stress_lines_info": 2000, "go_infinite": 150, "go_clock": 150, "go_movetime": 150, "go_depth": 300}},
         rule="whole sessions of 5-40 position/go cycles on one process: the engine plays its own bestmove and the opponent answers with the ponder move (60%, PV-continuation path) or a random legal move (diverged path), with/without ucinewgame, mixed limits (depth 1-4, movetime, clocks, infinite+stop), uci / isready / debug on|off interleaved; "
              "half of the sessions through the shipped binary (every stdout line after the banner validated against the monitor's own UCI engine-to-GUI grammar), half in-process (typed events); per search: depth / nodes / time never decrease, every reported PV is a legal line from the searched position per the reference, "
              "bestmove = first and ponder = second move of the last reported PV (ponder absent iff the PV has one move; no move announced if no PV was reported); sessions of unrelated roots as in C07 (recurring positions, mate / stalemate roots) searched to depth 2-5; output-stream stress on the hooked binary: the search thread prints an info line every 50 nodes while the main thread answers a burst of 800-2000 isready / uci commands - every line must be one intact message and every isready answered exactly once; distinct_nontrivial = distinct (root key, final PV) pairs",
